@@ -24,6 +24,9 @@ pub struct Props {
     pub c05: bool,
     /// C01(d): sweep all 64*64*5 triples through is_legal on this state
     pub full_sweep: bool,
+    /// continue from the board REACHED BY PLAY even when it differs from the rebuilt twin, so that
+    /// stale state (a castling right that should have gone) is carried along a whole history
+    pub carry_played: bool,
 }
 
 #[derive(Default, Clone, Debug)]
@@ -136,6 +139,41 @@ pub fn near_misses(rp: &Position, legal: &[Mv]) -> Vec<Mv> {
         }
         // reversed move and a move from the destination: cheap structural near misses
         out.insert(Mv::new(m.to, m.from, None));
+    }
+    // an en-passant "capture" by every own pawn standing on the capture rank, whatever its file
+    // (adjacent files that are not legal, files further away, across the board edge)
+    if let Some(e) = rp.ep_square() {
+        let rank = if rp.turn == refchess::Col::W { 4u8 } else { 3u8 };
+        for f in 0..8u8 {
+            let from = rank * 8 + f;
+            if rp.at(from) == Some((rp.turn, refchess::Pc::P)) {
+                out.insert(Mv::new(from, e, None));
+            }
+        }
+    }
+    // steps that are one index step away but wrap around the board edge
+    for from in 0..64u8 {
+        let Some((c, pc)) = rp.at(from) else { continue };
+        if c != rp.turn {
+            continue;
+        }
+        let deltas: &[i16] = match pc {
+            refchess::Pc::P => if c == refchess::Col::W { &[7, 9] } else { &[-7, -9] },
+            refchess::Pc::K => &[1, -1, 7, 9, -7, -9],
+            refchess::Pc::N => &[6, 10, 15, 17, -6, -10, -15, -17],
+            _ => &[],
+        };
+        for dlt in deltas {
+            let to = from as i16 + dlt;
+            if !(0..64).contains(&to) {
+                continue;
+            }
+            let (ff, tf) = ((from % 8) as i16, (to % 8) as i16);
+            let max_file_step = if pc == refchess::Pc::N { 2 } else { 1 };
+            if (ff - tf).abs() > max_file_step {
+                out.insert(Mv::new(from, to as u8, None));
+            }
+        }
     }
     out.into_iter().filter(|m| !set.contains(m)).collect()
 }
@@ -651,23 +689,55 @@ pub fn c05_state(rp: &Position, b: &Board) -> Vec<Divergence> {
             // the incremental builder is the third constructor: for every rights-free position (all the
             // public API can assemble) it produces the identical board, derived state included
             if !rp.rights.iter().any(|x| *x) {
-                let mut bld = Board::builder();
-                bld.turn(real_color(rp.turn)).half_move_clock(rp.half as u16).full_move_clock(rp.full as u16);
-                bld.enpassant(rp.ep.map(|f| chess_bitboard::File::from_u8(f as u8).unwrap()));
-                for s in 0..64u8 {
-                    if let Some((c, pc)) = rp.at(s) {
-                        let _ = bld.place(pos(s), real_color(c), real_piece(pc));
-                    }
-                }
-                match bld.build() {
-                    Ok(t) => {
-                        if t != p || t.half_move_clock() != p.half_move_clock() || t.full_move_clock() != p.full_move_clock() || t.zobrist() != p.zobrist() || t.to_string() != fen {
-                            d.push(Divergence::new("builder-differs-from-parser", format!("'{fen}': the builder's board writes '{t}'")));
-                        } else if format!("{t:?}") != format!("{p:?}") || t.in_check() != p.in_check() || t.state() != p.state() || t.legals().len() != p.legals().len() {
-                            d.push(Divergence::new("builder-derived-state-differs-from-parser", format!("'{fen}': same position, different check / pin information")));
+                // three call orders: FEN field order; en-passant first and turn last; placements first
+                // and the double-stepped pawn (or the first man) removed and placed again at the end
+                for variant in 0..3 {
+                    let mut bld = Board::builder();
+                    let ep_file = rp.ep.map(|f| chess_bitboard::File::from_u8(f as u8).unwrap());
+                    let place_all = |bld: &mut chess_movegen::BoardBuilder| {
+                        for s in 0..64u8 {
+                            if let Some((c, pc)) = rp.at(s) {
+                                let _ = bld.place(pos(s), real_color(c), real_piece(pc));
+                            }
+                        }
+                    };
+                    match variant {
+                        0 => {
+                            bld.turn(real_color(rp.turn)).half_move_clock(rp.half as u16).full_move_clock(rp.full as u16);
+                            bld.enpassant(ep_file);
+                            place_all(&mut bld);
+                        }
+                        1 => {
+                            bld.enpassant(ep_file);
+                            place_all(&mut bld);
+                            bld.half_move_clock(rp.half as u16).full_move_clock(rp.full as u16);
+                            bld.turn(real_color(rp.turn));
+                        }
+                        _ => {
+                            place_all(&mut bld);
+                            bld.turn(real_color(rp.turn));
+                            bld.enpassant(ep_file);
+                            // the pawn that made the double step stands on the mover's fifth rank
+                            let target = rp.ep.map(|f| (if rp.turn == refchess::Col::W { 4u8 } else { 3u8 }) * 8 + f as u8).or_else(|| (0..64u8).find(|&s| rp.at(s).is_some()));
+                            if let Some(sq) = target {
+                                if let Some((c, pc)) = rp.at(sq) {
+                                    bld.remove(pos(sq));
+                                    let _ = bld.place(pos(sq), real_color(c), real_piece(pc));
+                                }
+                            }
+                            bld.half_move_clock(rp.half as u16).full_move_clock(rp.full as u16);
                         }
                     }
-                    Err(e) => d.push(Divergence::new("builder-and-parser-disagree-on-acceptance", format!("'{fen}': parser accepts, builder: {e:?}"))),
+                    match bld.build() {
+                        Ok(t) => {
+                            if t != p || t.half_move_clock() != p.half_move_clock() || t.full_move_clock() != p.full_move_clock() || t.zobrist() != p.zobrist() || t.to_string() != fen {
+                                d.push(Divergence::new("builder-differs-from-parser", format!("'{fen}': the builder's board (call order {variant}) writes '{t}'")));
+                            } else if variant == 0 && (format!("{t:?}") != format!("{p:?}") || t.in_check() != p.in_check() || t.state() != p.state() || t.legals().len() != p.legals().len()) {
+                                d.push(Divergence::new("builder-derived-state-differs-from-parser", format!("'{fen}': same position, different check / pin information")));
+                            }
+                        }
+                        Err(e) => d.push(Divergence::new("builder-and-parser-disagree-on-acceptance", format!("'{fen}': parser accepts, builder (call order {variant}): {e:?}"))),
+                    }
                 }
             }
         }
